@@ -2,9 +2,15 @@
 Engine H: Gallina model of TinyNonLinearSolverBase::solveNonLinearSystem/2 with every Child hook as an oracle;
 theorems for every oracle / iterMax / criterion; tie = the REAL template run (i) with a mock CRTP child whose hook
 outcomes are scripted (all scripts up to a length, random beyond) and (ii) inside the six real solvers on residual
-families with injected failures / NaN / inf, the complete hook-call trace and final state compared with the model
-(model fed, for (ii), with the outcomes read off the observed trace: an acceptor)."""
+families (affine, quadratic, products with known roots, rational, N = 1 cubic with an admissibility constraint) with
+injected failures / NaN / inf, the complete hook-call trace and final state compared with the model (model fed, for
+(ii), with the outcomes read off the observed trace: an acceptor).
+Engine S: ONE computeNewCorrection of each solver is traced from /repo (trace.cxx, N = 1..3 Newton, N = 2/3 Broyden,
+N = 2 Levenberg-Marquardt and dog-leg) and Coq proves, on the regenerated terms: Newton equation and exactness on
+affine residuals, secant / inverse secant equations, damped normal equations and the accept/reject rule of mu,
+dog-leg geometry; a run model of successive LM corrections sits on top of the traced step."""
 import itertools, math, os, re, struct
+from concurrent.futures import ThreadPoolExecutor
 from vlib import guarded_main
 
 NAN, INF = float("nan"), float("inf")
@@ -63,9 +69,13 @@ def symbol(ch, j):
 
 
 class Case:
-    def __init__(self, cid, kind, im, crit, eps, z0, script=None, solver=None, prob=None):
+    """kind M: mock child; S/Q/T: real solver (N = 2) on a residual family; K: real solver (N = 1) on x^3 - x"""
+    FAMILY = {"S": "F_i(z)=sum_j A_ij z_j + b_i + c_i z_i^2", "Q": "F = A q(z), q_i = (z_i - b_i)(z_i - c_i)",
+              "T": "F = A q(z), q_i = (z_i - b_i)/(1 + z_i^2)"}
+
+    def __init__(self, cid, kind, im, crit, eps, z0, script=None, solver=None, prob=None, affine=False, xmin=None):
         self.id, self.kind, self.im, self.crit, self.eps, self.z0 = cid, kind, im, crit, eps, z0
-        self.script, self.solver, self.prob = script, solver, prob
+        self.script, self.solver, self.prob, self.affine, self.xmin = script, solver, prob, affine, xmin
 
     def line(self):
         if self.kind == "M":
@@ -79,8 +89,10 @@ class Case:
                 else:
                     t += ["2", hx(c[1][0]), hx(c[1][1]), hx(c[0][0]), hx(c[0][1])]
             return " ".join(t)
+        if self.kind == "K":
+            return " ".join(["K", self.id, str(self.solver), str(self.im), hx(self.eps), hx(self.z0[0]), hx(self.xmin)])
         A, b, cc, jac, inj = self.prob
-        t = ["S", self.id, str(self.solver), str(self.im), hx(self.eps), hx(self.z0[0]), hx(self.z0[1])]
+        t = [self.kind, self.id, str(self.solver), str(self.im), hx(self.eps), hx(self.z0[0]), hx(self.z0[1])]
         t += [hx(x) for x in A] + [hx(x) for x in b] + [hx(x) for x in cc] + [str(jac), str(len(inj))]
         for (k, w) in inj:
             t += [str(k), str(w)]
@@ -88,16 +100,35 @@ class Case:
 
     def json(self):
         d = {"id": self.id, "kind": "mock child with scripted hook outcomes" if self.kind == "M" else "real solver " + SOLVERS[self.solver],
-             "iterMax": self.im, "epsilon": hx(self.eps), "zeros0": [hx(x) for x in self.z0], "driver_line": self.line(),
-             "how": "props/C08/driver.cxx <file containing driver_line>"}
+             "iterMax": self.im, "epsilon": hx(self.eps), "zeros0": [hx(x) for x in self.z0], "zeros0_decimal": self.z0,
+             "driver_line": self.line(), "how": "props/C08/driver.cxx <file containing driver_line>"}
         if self.kind == "M":
             d["criterion"] = "default e<epsilon" if self.crit == 0 else "child override !(e>=epsilon)"
             d["script(ok,norm,correction)"] = [[ok, hx(e), None if c is None else {"zeros_overwritten": c[0], "delta_zeros": c[1]}] for (ok, e, c) in self.script]
+        elif self.kind == "K":
+            d["residual"] = "N = 1, f(x) = x^3 - x; computeResidual fills fzeros (and the jacobian) and returns x > %r" % self.xmin
         else:
             A, b, cc, jac, inj = self.prob
-            d["F_i(z)=sum_j A_ij z_j + b_i + c_i z_i^2"] = {"A": A, "b": b, "c": cc, "initial_jacobian": "exact" if jac else "identity",
-                                                             "injected(evaluation index, 0=false 1=NaN 2=inf)": inj}
+            d[self.FAMILY[self.kind]] = {"A": A, "b": b, "c": cc, "initial_jacobian": "exact" if jac else "identity",
+                                         "injected(evaluation index, 0=false 1=NaN 2=inf)": inj}
         return d
+
+    def describe(self):
+        if self.kind == "M":
+            return "mock child, iterMax %d, script %s" % (self.im, self.id)
+        if self.kind == "K":
+            return "%s, N = 1, f(x) = x^3 - x admissible for x > %g, start x0 = %.17g, iterMax %d, epsilon %g" % (SOLVERS[self.solver], self.xmin, self.z0[0], self.im, self.eps)
+        return "%s, N = 2, %s, start %s, iterMax %d, epsilon %g" % (SOLVERS[self.solver], self.FAMILY[self.kind], self.z0, self.im, self.eps)
+
+    def residual(self, z):
+        """independent evaluation of the residual at z (Python floats)"""
+        if self.kind == "K":
+            return [z[0] ** 3 - z[0]]
+        A, b, cc, _jac, _inj = self.prob
+        if self.kind == "S":
+            return [A[2 * i] * z[0] + A[2 * i + 1] * z[1] + b[i] + cc[i] * z[i] * z[i] for i in range(2)]
+        q = [(z[i] - b[i]) * (z[i] - cc[i]) if self.kind == "Q" else (z[i] - b[i]) / (1 + z[i] * z[i]) for i in range(2)]
+        return [A[2 * i] * q[0] + A[2 * i + 1] * q[1] for i in range(2)]
 
 
 def coq_case(im, crit, eps, z0, script):
@@ -164,26 +195,97 @@ def real_cases(c):
     return cs
 
 
-def parse_driver(out):
-    res = {}
+def family_cases(c):
+    """affine systems (one Newton step must be enough), systems with known roots, the N = 1 cubic with an inadmissible root"""
+    rng = c.rng
+    cs = []
+
+    def wellcond():
+        return [rng.uniform(2, 4), rng.uniform(-1, 1), rng.uniform(-1, 1), rng.uniform(2, 4)]
+    for t in range(c.pick(120, 1200)):
+        solver = t % 6
+        cs.append(Case("a%d" % t, "S", rng.choice([2, 3, 10]), 0, rng.choice([1e-10, 1e-6, 1e-12]),
+                       [rng.uniform(-2, 2), rng.uniform(-2, 2)], None, solver,
+                       (wellcond(), [rng.uniform(-3, 3), rng.uniform(-3, 3)], [0.0, 0.0], 1 if t % 12 < 9 else 0, []), affine=True))
+    for t in range(c.pick(180, 1800)):
+        solver = t % 6
+        kind = "Q" if t % 2 == 0 else "T"
+        b = [rng.uniform(-2, 2), rng.uniform(-2, 2)]
+        cc = [b[i] + rng.choice([-1, 1]) * rng.uniform(1, 3) for i in range(2)] if kind == "Q" else [0.0, 0.0]
+        ninj = rng.choice([0, 0, 0, 1])
+        inj = [(rng.randint(0, 5), rng.randint(0, 2))] if ninj else []
+        z0 = [b[i] + rng.uniform(-0.4, 0.4) for i in range(2)] if t % 3 else [rng.uniform(-3, 3), rng.uniform(-3, 3)]
+        cs.append(Case("%s%d" % (kind.lower(), t), kind, rng.choice([5, 10, 30, 60]), 0, rng.choice([1e-10, 1e-8, 1e-12]),
+                       z0, None, solver, (wellcond(), b, cc, 1, inj)))
+    # f = x^3 - x, admissible only for x > -0.5: every start of the sweep -0.45, -0.40, ... 2.55 for the six solvers
+    for solver in range(6):
+        for i in range(61):
+            x0 = -0.45 + 0.05 * i
+            cs.append(Case("k%d.%d" % (solver, i), "K", 50, 0, 1e-12, [x0], None, solver, None, xmin=-0.5))
+    if not c.quick():
+        for t in range(600):
+            cs.append(Case("kr%d" % t, "K", rng.choice([5, 20, 50]), 0, rng.choice([1e-12, 1e-8]), [rng.uniform(-3, 3)], None, t % 6, None,
+                           xmin=rng.choice([-0.5, 0.5, -2.0])))
+    return cs
+
+
+def dogleg_cases(c):
+    """(id, solver, J, F, radius): one computeNewCorrection of the two dog-leg solvers; the first one is canonical"""
+    rng = c.rng
+    ds = [("canon", 5, [1.0, 0.0, 0.0, 2.0], [1.0, 1.0], 0.01), ("canon-nr", 4, [1.0, 0.0, 0.0, 2.0], [1.0, 1.0], 0.01)]
+    for t in range(c.pick(60, 600)):
+        J = [rng.uniform(2, 4) * rng.choice([-1, 1]), rng.uniform(-1, 1), rng.uniform(-1, 1), rng.uniform(2, 4)]
+        ds.append(("g%d" % t, 4 + t % 2, J, [rng.uniform(-3, 3), rng.uniform(-3, 3)], rng.choice([4.0, 1.0, 0.25, 0.05, 0.01])))
+    return ds
+
+
+def dogleg_ref(J, f, r):
+    """independent statement of Powell's dog-leg as documented in TinyPowellDogLegAlgorithmBase.hxx (tests on the sum of
+    absolute values against N * radius, Euclidean geometry), applied to the Newton step of (J, f)"""
+    det = J[0] * J[3] - J[1] * J[2]
+    d = [-(J[3] * f[0] - J[1] * f[1]) / det, -(-J[2] * f[0] + J[0] * f[1]) / det]
+    if abs(d[0]) + abs(d[1]) < 2 * r:
+        return d, "newton"
+    g = [J[0] * f[0] + J[2] * f[1], J[1] * f[0] + J[3] * f[1]]
+    Jg = [J[0] * g[0] + J[1] * g[1], J[2] * g[0] + J[3] * g[1]]
+    cst = (g[0] * g[0] + g[1] * g[1]) / (Jg[0] * Jg[0] + Jg[1] * Jg[1])
+    gc = [cst * g[0], cst * g[1]]
+    if abs(gc[0]) + abs(gc[1]) < 2 * r:
+        c0, c1, c2, c3 = r * r, gc[0] ** 2 + gc[1] ** 2, -(d[0] * gc[0] + d[1] * gc[1]), d[0] ** 2 + d[1] ** 2
+        c4 = (c2 - c0) ** 2 + (c3 - c0) * (c0 - c1)
+        al = (c0 - c1) / (c2 - c1 + math.sqrt(max(c4, 0.0)))
+        return [al * d[i] - (1 - al) * gc[i] for i in range(2)], "segment"
+    n = math.hypot(gc[0], gc[1])
+    return [-gc[i] * r / n for i in range(2)], "steepest descent"
+
+
+def parse_driver(out, nz):
+    """nz: case id -> number of unknowns"""
+    res, dres = {}, {}
     for l in out.splitlines():
         t = l.split()
-        if not t or t[0] != "R":
+        if not t:
+            continue
+        if t[0] == "D":
+            dres[t[1]] = (int(t[2]), [fh(t[3]), fh(t[4])])
+            continue
+        if t[0] != "R":
             continue
         cid, r, it = t[1], int(t[2]), int(t[3])
-        z = [fh(t[4]), fh(t[5])]
-        n = int(t[6])
-        p = 7
+        k = nz[cid]
+        z = [fh(u) for u in t[4:4 + k]]
+        n = int(t[4 + k])
+        p = 5 + k
         evs = []
         for _ in range(n):
             code, m = int(t[p]), int(t[p + 1])
             evs.append((code, [fh(u) for u in t[p + 2:p + 2 + m]]))
             p += 2 + m
         res[cid] = (r, it, z, evs)
-    return res
+    return res, dres
 
 
-def derive_script(evs):
+def derive_script(evs, nz=2):
     """outcomes of the successive residual evaluations, read off an observed trace"""
     sc = []
     for (code, pl) in evs:
@@ -192,7 +294,8 @@ def derive_script(evs):
         elif code == 6 and sc:
             sc[-1][1] = pl[0]
         elif code == 13 and sc:
-            sc[-1][2] = (pl[2:4] if len(pl) == 4 else None, pl[0:2])
+            n = nz if len(pl) in (nz, 2 * nz) else len(pl)
+            sc[-1][2] = (pl[n:2 * n] if len(pl) == 2 * n else None, pl[0:n])
     return [tuple(o) for o in sc]
 
 
@@ -218,6 +321,29 @@ def spec_check(case, obs):
     else:
         if not codes or codes[-1] != 17 or 16 in codes:
             bad.append(("verdict:" + case.id, "failure returned but the last report is not reportFailure: %s" % codes[-4:]))
+    if r in (1, 2) and case.kind in "SQTK" and not bad:
+        # independent re-evaluation of the residual at the returned unknowns
+        f = case.residual(z)
+        nf = math.sqrt(sum(x * x for x in f))
+        if not (nf < case.eps * (1 + 1e-6) + 1e-300):
+            bad.append(("root:" + case.id, "success returned at zeros %s where the residual norm recomputed independently is %.3g >= epsilon %.3g" % (z, nf, case.eps)))
+        if case.kind == "K":
+            x = z[0]
+            roots = [t for t in (-1.0, 0.0, 1.0) if t > case.xmin]
+            if not (x > case.xmin and any(abs(x - t) <= 1e-5 for t in roots)):
+                bad.append(("root:" + case.id, "success returned at x = %.17g, which is not an admissible root of x^3 - x (admissible: x > %g, roots %s)" % (x, case.xmin, roots)))
+        elif case.kind == "Q":
+            b, cc = case.prob[1], case.prob[2]
+            if not all(min(abs(z[i] - b[i]), abs(z[i] - cc[i])) <= 1e-5 * (1 + abs(z[i])) for i in range(2)):
+                bad.append(("root:" + case.id, "success returned at %s, not one of the roots {%s} x {%s}" % (z, (b[0], cc[0]), (b[1], cc[1]))))
+        elif case.kind == "T":
+            b = case.prob[1]
+            if not all(abs(z[i] - b[i]) <= 1e-5 * (1 + abs(z[i])) or abs(z[i]) > 1e3 for i in range(2)):
+                bad.append(("root:" + case.id, "success returned at %s, not the root %s" % (z, b)))
+    if case.affine and (case.solver == 0 or (case.solver in (1, 2) and case.prob[3] == 1)):
+        # one (quasi-)Newton step with the exact jacobian solves an affine system
+        if not (r == 1 and it <= 1):
+            bad.append(("affine:" + case.id, "%s on a well-conditioned affine system with the exact jacobian: result %d after %d iteration(s) (expected success after one correction)" % (SOLVERS[case.solver], r, it)))
     # a failed / non finite evaluation is rejected on the spot
     for i, (code, pl) in enumerate(evs):
         if code == 4 or (code == 6 and not math.isfinite(pl[0])):
@@ -262,23 +388,192 @@ def parse_coq(out):
 
 
 MODEL = ["C08Model.v", "C08Float.v"]
+KEY_PBR = "dogleg-broyden:residual"
+PIECES = ["nr1", "nr2", "nr3", "bup2", "b2up2", "bup3", "b2up3", "bco2", "b2co2", "lmstep2", "lmfirst2", "lmnext2", "dogleg2", "pnr2", "pbr2"]
+
+
+def mv(M, x):
+    n = len(x)
+    return [sum(M[n * i + j] * x[j] for j in range(n)) for i in range(n)]
+
+
+def tmv(M, x):
+    n = len(x)
+    return [sum(M[n * i + j] * x[i] for i in range(n)) for j in range(n)]
+
+
+def dogleg_apply(d, J, f, r):
+    """Powell's dog-leg as documented in TinyPowellDogLegAlgorithmBase.hxx applied to a step d (N = 2)"""
+    if abs(d[0]) + abs(d[1]) < 2 * r:
+        return list(d), "kept"
+    g = tmv(J, f)
+    Jg = mv(J, g)
+    cst = (g[0] * g[0] + g[1] * g[1]) / (Jg[0] * Jg[0] + Jg[1] * Jg[1])
+    gc = [cst * g[0], cst * g[1]]
+    if abs(gc[0]) + abs(gc[1]) < 2 * r:
+        c0, c1, c2, c3 = r * r, gc[0] ** 2 + gc[1] ** 2, -(d[0] * gc[0] + d[1] * gc[1]), d[0] ** 2 + d[1] ** 2
+        c4 = (c2 - c0) ** 2 + (c3 - c0) * (c0 - c1)
+        al = (c0 - c1) / (c2 - c1 + math.sqrt(max(c4, 0.0)))
+        return [al * d[i] - (1 - al) * gc[i] for i in range(2)], "segment"
+    n = math.hypot(gc[0], gc[1])
+    return [-gc[i] * r / n for i in range(2)], "steepest descent"
+
+
+def piece_spec(name, x, out):
+    """independent statement (Python floats) of what one traced piece must satisfy; x = inputs, out = outputs of the code
+    instantiated with double (None: it returned false).  Returns None or a description of the failure."""
+    n = int(name[-1])
+    tol = 1e-8
+
+    def small(v, scale):
+        return all(abs(t) <= tol * max(1.0, scale) for t in v)
+
+    def scl(*vs):
+        return max([1.0] + [abs(t) for v in vs for t in v])
+    if name.startswith("nr"):
+        J, F = x[:n * n], x[n * n:]
+        if out is None:
+            return None  # tiny determinant: checked by the theorem only
+        res = [a + b for a, b in zip(mv(J, out), F)]
+        return None if small(res, scl(F, out) * scl(J)) else "J d + F = %s for d = %s" % (res, out)
+    if name.startswith(("bup", "b2up", "bco", "b2co")):
+        M, dz, F, G = x[:n * n], x[n * n:n * n + n], x[n * n + n:n * n + 2 * n], x[n * n + 2 * n:]
+        dF = [a - b for a, b in zip(F, G)]
+        inv = name.startswith("b2")
+        if out is None:
+            return None
+        M2 = out[n:n + n * n] if "co" in name else out
+        res = [a - b for a, b in zip(mv(M2, dF), dz)] if inv else [a - b for a, b in zip(mv(M2, dz), dF)]
+        if not small(res, scl(M2) * scl(dz, dF)):
+            return "%s equation violated by the updated matrix %s: residual %s" % ("inverse secant" if inv else "secant", M2, res)
+        if "co" in name:
+            d = out[:n]
+            res = [a + b for a, b in zip(d, mv(M2, F))] if inv else [a + b for a, b in zip(mv(M2, d), F)]
+            if not small(res, scl(M2) * scl(d, F)):
+                return "correction %s does not solve the quasi-Newton system: residual %s" % (d, res)
+            if out[n + n * n:] != F:
+                return "fzeros_1 = %s is not fzeros = %s" % (out[n + n * n:], F)
+        return None
+    if name in ("lmstep2", "lmfirst2", "lmnext2"):
+        def lm_res(J, F, mu, d):
+            lam = mu * math.hypot(F[0], F[1])
+            return [a + lam * b + c_ for a, b, c_ in zip(tmv(J, mv(J, d)), d, tmv(J, F))]
+        if out is None:
+            return None
+        if name == "lmstep2":
+            J, F, mu = x[:4], x[4:6], x[6]
+            res = lm_res(J, F, mu, out)
+            return None if small(res, scl(J) ** 2 * scl(out, F)) else "(J^T J + mu |F| I) d + J^T F = %s" % res
+        if name == "lmfirst2":
+            J, F, mu, z = x[:4], x[4:6], x[6], x[7:9]
+            exp = [mu] + z + out[3:5] + F + J + [math.hypot(F[0], F[1])] + F + J
+        else:
+            mu, z, dz, F, J, e1, G, K = x[0], x[1:3], x[3:5], x[5:7], x[7:11], x[11], x[12:14], x[14:18]
+            p0, p1, p2, m = x[18:22]
+            lin = [a + b for a, b in zip(G, mv(K, dz))]
+            den = lin[0] ** 2 + lin[1] ** 2 - e1 * e1
+            r = (F[0] ** 2 + F[1] ** 2 - e1 * e1) / den if den != 0 else float("nan")
+            if any(abs(r - p) < 1e-9 * max(1.0, abs(r)) for p in (p0, p1, p2)) or r != r or abs(mu / 4 - m) < 1e-12:
+                return None  # decision within rounding noise
+            if r < p0:
+                mu2, z, F, J = 4 * mu, [z[0] - dz[0], z[1] - dz[1]], G, K
+                exp = [mu2] + z + out[3:5] + G + K + [e1] + G + K
+            else:
+                mu2 = 4 * mu if r < p1 else (max(mu / 4, m) if r > p2 else mu)
+                exp = [mu2] + z + out[3:5] + F + J + [math.hypot(F[0], F[1])] + F + J
+            mu = mu2
+        if len(out) != len(exp) or not all(abs(a - b) <= 1e-12 * max(1.0, abs(b)) for a, b in zip(out, exp)):
+            return "state after the call %s, expected %s (mu, zeros, delta_zeros, fzeros, jacobian, error_1, fzeros_1, jacobian_1)" % (out, exp)
+        res = lm_res(J, F, mu, out[3:5])
+        return None if small(res, scl(J) ** 2 * scl(out[3:5], F) + abs(mu) * scl(F) ** 2) else "the correction is not the LM step of the current system: residual %s" % res
+    if name in ("dogleg2", "pnr2"):
+        if out is None:
+            return None
+        if name == "dogleg2":
+            d, J, F, r = x[:2], x[2:6], x[6:8], x[8]
+        else:
+            J, F, r = x[:4], x[4:6], x[6]
+            det = J[0] * J[3] - J[1] * J[2]
+            d = [-(J[3] * F[0] - J[1] * F[1]) / det, -(-J[2] * F[0] + J[0] * F[1]) / det]
+        if abs(abs(d[0]) + abs(d[1]) - 2 * r) < 1e-9:
+            return None
+        ref, branch = dogleg_apply(d, J, F, r)
+        return None if all(abs(a - b) <= 1e-7 * max(1.0, scl(ref)) for a, b in zip(out, ref)) else "returns %s, Powell's dog-leg gives %s (%s)" % (out, ref, branch)
+    return None
+
+
+def run_tracer(c):
+    """engine S: trace one computeNewCorrection of each solver from /repo; returns the generated .v or None"""
+    trc = c.cxx("trace", ["trace.cxx"], ["src/Exception/ContractViolation.cxx"], flags=["-fno-access-control", "-w"])
+    cdir = os.path.join(c.work, "coq")
+    os.makedirs(cdir, exist_ok=True)
+    gen = os.path.join(cdir, "C08_gen.v")
+    rc, out, err = c.run([trc, "gen", gen, str(c.seed)], timeout=300)
+    seen, nag, nfail = {}, 0, 0
+    lines = out.splitlines()
+    for k, l in enumerate(lines):
+        t = l.split()
+        if not t:
+            continue
+        if t[0] == "PIECE":
+            seen[t[1]] = (int(t[5]), int(t[7]))
+        elif t[0] in ("AGREE", "AGREE-FAIL"):
+            nag += 1
+            c.count(1, ("agree", t[1], t[2]), True)
+            if t[0] == "AGREE-FAIL":
+                nfail += 1
+                if nfail <= 5:
+                    c.report("agree:%s:%s" % (t[1], t[2]), "traced term of %s and the same code instantiated with double disagree: %s" % (
+                        t[1], " | ".join(x.strip() for x in lines[k + 1:k + 4])), {"piece": t[1], "lines": lines[k:k + 4]}, True)
+    nspec = {}
+    for l in lines:
+        t = l.split()
+        if not t or t[0] != "DBL":
+            continue
+        nin = int(t[3])
+        x = [float.fromhex(u) for u in t[4:4 + nin]]
+        o = None if t[4 + nin] == "false" else [float.fromhex(u) for u in t[5 + nin:]]
+        why = piece_spec(t[1], x, o)
+        c.count(1, ("piece", t[1], t[2]), o is not None)
+        if why:
+            nspec[t[1]] = nspec.get(t[1], 0) + 1
+            if nspec[t[1]] <= 2:
+                c.report("piece:%s:%s" % (t[1], t[2]), "one correction of the real code (double) violates its specification, piece %s, inputs %s: %s" % (t[1], x, why),
+                         {"piece": t[1], "inputs (order of the parameters of the piece in props/C08/trace.cxx)": x, "outputs": o, "how": "props/C08/trace.cxx gen /dev/null <seed>"}, True)
+    ok = rc == 0 and "TRACE-FAIL" not in out and all(p in seen for p in PIECES)
+    if not ok:
+        msg = [l for l in lines if l.startswith("TRACE-FAIL")] or [err[-400:]]
+        c.report("trace", "the tracer could not trace one correction of every solver of /repo: %s" % msg, {"stdout": out[-2000:], "stderr": err[-2000:]}, False)
+        return None
+    c.coverage["traced_pieces(leaves, returning)"] = seen
+    c.log("engine S: %d pieces traced, %d Sym-vs-double agreement runs, %d disagreements" % (len(seen), nag, nfail))
+    c.trusted("engine S tracer (cxx/sym/sym.hxx: Sym arithmetic, path oracle, printer), props/C08/trace.cxx (opens the solver classes with -fno-access-control, "
+              "specialises std::is_floating_point<Sym> to pass the static_assert of the solvers), g++ template instantiation with Sym",
+              "agreement Sym trace vs double instantiation on %d seeded inputs (relative 1e-9, all branches of the LM rule and of the dog-leg visited)" % nag)
+    return gen
 
 
 def main(c):
     exe = c.cxx("driver", ["driver.cxx"], ["src/Exception/ContractViolation.cxx"], flags=["-ffp-contract=off"])
-    cases = mock_cases(c) + real_cases(c)
+    cases = mock_cases(c) + real_cases(c) + family_cases(c)
+    dcases = dogleg_cases(c)
     inp = os.path.join(c.work, "cases.txt")
     with open(inp, "w") as f:
         f.write("\n".join(cs.line() for cs in cases) + "\n")
+        for (did, solver, J, F, r) in dcases:
+            f.write(" ".join(["D", did, str(solver)] + [hx(x) for x in J + F + [r]]) + "\n")
     rc, out, err = c.run([exe, inp], timeout=900)
     if rc != 0:
         c.report("run", "driver failed (rc=%d): %s" % (rc, err[-500:]), {"stderr": err[-3000:]}, False)
         return
-    obs = parse_driver(out)
-    if len(obs) != len(cases):
-        c.report("run", "driver printed %d results for %d cases" % (len(obs), len(cases)), {}, False)
+    obs, dobs = parse_driver(out, {cs.id: len(cs.z0) for cs in cases})
+    if len(obs) != len(cases) or len(dobs) != len(dcases):
+        c.report("run", "driver printed %d+%d results for %d+%d cases" % (len(obs), len(dobs), len(cases), len(dcases)), {}, False)
         return
-    c.log("driver ran %d cases (%d mock, %d real solvers)" % (len(cases), sum(1 for x in cases if x.kind == "M"), sum(1 for x in cases if x.kind == "S")))
+    kinds = {}
+    for cs in cases:
+        kinds[cs.kind] = kinds.get(cs.kind, 0) + 1
+    c.log("driver ran %d cases %s and %d single dog-leg corrections" % (len(cases), kinds, len(dcases)))
     nsucc = 0
     nbad = {}
     for cs in cases:
@@ -286,71 +581,150 @@ def main(c):
         nsucc += o[0] in (1, 2)
         c.count(1, cs.id, len(o[3]) > 5)
         for (key, what) in spec_check(cs, o):
-            cat = key.split(":")[0]
+            cat = key.split(":")[0] + ":" + ("mock" if cs.kind == "M" else ("N=1 cubic" if cs.kind == "K" else "real solvers N=2"))
             nbad[cat] = nbad.get(cat, 0) + 1
-            if nbad[cat] <= 5:  # the first failing inputs of each kind (cases are ordered by size)
-                c.report(key, what, cs.json(), True)
+            if nbad[cat] <= (5 if cs.kind == "M" else 3):  # the first failing inputs of each kind (cases are ordered by size)
+                c.report(key, what + " [case %s: %s]" % (cs.id, cs.describe()), cs.json(), True)
     if nbad:
-        c.notes.append("property failures observed on the real code, by kind: %s (first 5 of each reported)" % nbad)
-    # ---- correspondence: complete trace + final state, model vs real code
-    mism = []
-    nmodel = 0
-    chunk = 4000
-    for k0 in range(0, len(cases), chunk):
-        sub = cases[k0:k0 + chunk]
-        items = []
-        for cs in sub:
-            sc = derive_script(obs[cs.id][3])
-            if cs.kind == "M":
-                # scripted outcomes; the norm is the value computeResidualNorm really returned for the scripted fzeros
-                sc = [(o[0], sc[k][1] if k < len(sc) and o[0] else o[1], o[2]) for k, o in enumerate(cs.script)]
-            items.append(coq_case(cs.im, cs.crit, cs.eps, cs.z0, sc))
-        txt = ("From Coq Require Import Floats List ZArith.\nFrom C08 Require Import C08Model C08Float.\nImport ListNotations.\n"
-               "Open Scope float_scope.\n" + "".join("Eval vm_compute in map run1 [\n%s].\n" % ";\n".join(items[j:j + 400])
-                                                     for j in range(0, len(items), 400)))
-        rc, out, err = c.coq_eval(MODEL, txt, timeout=900)
-        if rc != 0:
-            c.report("model-run", "model evaluation failed: " + err[-600:], {"stderr": err[-3000:]}, False)
-            return
-        mres = parse_coq(out)
-        if len(mres) != len(sub):
-            c.report("model-run", "model printed %d results for %d cases" % (len(mres), len(sub)), {"stdout": out[-2000:]}, False)
-            return
-        c.log("model evaluated on %d cases" % len(sub))
-        for cs, m in zip(sub, mres):
-            r, it, z, evs = obs[cs.id]
-            nmodel += 1
-            same = m is not None and m[0] == (r in (1, 2)) and m[1] == it and [bits(x) for x in m[2]] == [bits(x) for x in z]
-            if same:
-                # payloads compared for residual (zeros), norm and standard-iteration events; the payload printed by the
-                # driver with computeNewCorrection (delta_zeros, overwritten zeros) is an input of the model, not an output
-                same = (m[3] == [k for (k, _pl) in evs] and
-                        [bits(x) for x in m[4]] == [bits(x) for (k, pl) in evs if k != 13 for x in pl])
-            if not same:
-                mism.append((cs, m, obs[cs.id]))
-            elif nmodel % 997 == 5:
-                c.sample({"case": cs.id, "kind": cs.json()["kind"], "result": r, "iter": it, "zeros": [hx(x) for x in z], "hook_calls": [k for (k, _p) in evs][:40]})
+        c.notes.append("property failures observed on the real code, by kind: %s (first 5 / 3 of each reported)" % nbad)
+    # ---- the dog-leg solvers against the independent statement of the dog-leg
+    pbr_pinned = False
+    others = []
+    for (did, solver, J, F, r) in dcases:
+        ok, d = dobs[did]
+        ref, branch = dogleg_ref(J, F, r)
+        c.count(1, ("dogleg", did), branch != "newton")
+        sc = max(1e-300, max(abs(x) for x in ref))
+        good = ok == 1 and all(abs(d[i] - ref[i]) <= 1e-9 * sc for i in range(2))
+        if good:
+            continue
+        what = ("%s::computeNewCorrection on jacobian %s, residual %s, trust region %g returns delta_zeros = %s; Powell's dog-leg of the "
+                "(quasi-)Newton step gives %s (%s branch)" % ("TinyPowellDogLeg" + ("NewtonRaphson" if solver == 4 else "Broyden") + "Solver<2>", J, F, r, d, ref, branch))
+        rep = {"solver": SOLVERS[solver], "jacobian": J, "fzeros": F, "radius": r, "delta_zeros": d, "expected": ref, "branch": branch,
+               "how": "props/C08/driver.cxx, line `D %s %d ...`" % (did, solver)}
+        if did == "canon":
+            pbr_pinned = True
+            c.report(KEY_PBR, what + ": the dog-leg is called with tmp_fzeros, which TinyMatrixSolve has overwritten with the solution "
+                     "J^-1 F, in place of the residual (fix: props/C08/fix_dogleg_broyden.diff)", rep, True)
+        else:
+            others.append((did, solver, what, rep))
+    nsame = 0
+    for (did, solver, what, rep) in others:
+        if solver == 5 and pbr_pinned and any(k.get("key") == KEY_PBR and k.get("status") == "finding" for k in c.known):
+            nsame += 1  # further manifestations of the listed finding
+        else:
+            c.report("dogleg:%s" % did, what, rep, True)
+    if nsame:
+        c.notes.append("%d more seeded inputs show the listed finding %s" % (nsame, KEY_PBR))
+    c.coverage["dogleg_broyden_variant"] = "pinned (dog-leg fed with the solution of the linear system)" if pbr_pinned else "dog-leg of (jacobian, residual)"
+    # ---- engine S
+    gen = run_tracer(c)
+
+    # ---- Coq: model run (correspondence) and proofs, at most 4 jobs at a time
+    def coq(files):
+        r = c.coq(files, timeout=900)
+        if not r.ok:
+            c.coq_failures(r)
+        return r
+    r0 = coq(MODEL)
+    if not r0.ok:
+        return
+    wd = os.path.join(c.work, "coq")
+    model_abs = [os.path.join(wd, m) for m in MODEL]
+
+    def model_job():
+        mism, nmodel = [], 0
+        chunk = 4000
+        for k0 in range(0, len(cases), chunk):
+            sub = cases[k0:k0 + chunk]
+            items = []
+            for cs in sub:
+                sc = derive_script(obs[cs.id][3], len(cs.z0))
+                if cs.kind == "M":
+                    # scripted outcomes; the norm is the value computeResidualNorm really returned for the scripted fzeros
+                    sc = [(o[0], sc[k][1] if k < len(sc) and o[0] else o[1], o[2]) for k, o in enumerate(cs.script)]
+                items.append(coq_case(cs.im, cs.crit, cs.eps, cs.z0, sc))
+            txt = ("From Coq Require Import Floats List ZArith.\nFrom C08 Require Import C08Model C08Float.\nImport ListNotations.\n"
+                   "Open Scope float_scope.\n" + "".join("Eval vm_compute in map run1 [\n%s].\n" % ";\n".join(items[j:j + 400])
+                                                         for j in range(0, len(items), 400)))
+            rc, mout, merr = c.coq_eval(model_abs, txt, timeout=900)
+            if rc != 0:
+                c.report("model-run", "model evaluation failed: " + merr[-600:], {"stderr": merr[-3000:]}, False)
+                return None
+            mres = parse_coq(mout)
+            if len(mres) != len(sub):
+                c.report("model-run", "model printed %d results for %d cases" % (len(mres), len(sub)), {"stdout": mout[-2000:]}, False)
+                return None
+            c.log("model evaluated on %d cases" % len(sub))
+            for cs, m in zip(sub, mres):
+                r, it, z, evs = obs[cs.id]
+                nmodel += 1
+                same = m is not None and m[0] == (r in (1, 2)) and m[1] == it and [bits(x) for x in m[2]] == [bits(x) for x in z]
+                if same:
+                    # payloads compared for residual (zeros), norm and standard-iteration events; the payload printed by the
+                    # driver with computeNewCorrection (delta_zeros, overwritten zeros) is an input of the model, not an output
+                    same = (m[3] == [k for (k, _pl) in evs] and
+                            [bits(x) for x in m[4]] == [bits(x) for (k, pl) in evs if k != 13 for x in pl])
+                if not same:
+                    mism.append((cs, m, obs[cs.id]))
+                elif nmodel % 997 == 5:
+                    c.sample({"case": cs.id, "kind": cs.json()["kind"], "result": r, "iter": it, "zeros": [hx(x) for x in z], "hook_calls": [k for (k, _p) in evs][:40]})
+        return mism, nmodel
+
+    # the theorem about TinyPowellDogLegBroydenSolver that corresponds to the tree (decided by the execution above); the
+    # refutation of "dog-leg of (jacobian, residual)" on the pinned tree (interval arithmetic, slow) is left to the thorough tier
+    if pbr_pinned:
+        pbr_files = [["C08NumProofsD_pinned.v", "Properties_C08Num_pbr_pinned.v"]]
+        if not c.quick():
+            pbr_files.append(["C08NumProofsD_refuted.v", "Properties_C08Num_pbr_refuted.v"])
+    else:
+        pbr_files = [["C08NumProofsD_fixed.v", "Properties_C08Num_pbr_fixed.v"]]
+    with ThreadPoolExecutor(max_workers=4) as ex:
+        fm = ex.submit(model_job)
+        fo = ex.submit(coq, ["C08Spec.v", "C08Proofs.v", "Properties_C08.v"])
+        fnum = []
+        if gen is not None:
+            rg = coq([gen, "C08NumSpec.v", "C08NumTactics.v"])
+            if rg.ok:
+                fa = ex.submit(coq, ["C08NumProofsA.v", "Properties_C08NumA.v"])
+                fb = ex.submit(coq, ["C08NumProofsB.v", "Properties_C08NumB.v"])
+                rc_ = coq(["C08NumProofsC.v"])
+                fnum = [fa, fb]
+                if rc_.ok:
+                    fnum.append(ex.submit(coq, ["Properties_C08NumC.v"]))
+                    fnum += [ex.submit(coq, fl) for fl in pbr_files]
+        mrun = fm.result()
+        fo.result()
+        for f in fnum:
+            f.result()
+    c.log("Coq done")
+    if mrun is None:
+        return
+    mism, nmodel = mrun
     c.coverage["traces_validated_against_impl"] = nmodel
     c.coverage["rule"] = ("mock child: every script over 7 outcome classes (residual fails, NaN norm, inf norm, converged, correction fails, step, "
                           "boundary norm==epsilon with step overwriting zeros) of length <= %d for several iterMax (%s), both criteria "
-                          "(default e<eps, override !(e>=eps)), plus seeded random scripts of length 4..14; real solvers: %d seeded systems over "
-                          "NewtonRaphson/Broyden/Broyden2/LevenbergMarquardt/PowellDogLeg(NR,Broyden), N=2, singular Jacobians included, failures/NaN/inf "
-                          "injected at up to 3 evaluation indices; %d of all runs succeeded. non-trivial = more than 5 hook calls"
-                          % (c.pick(3, 4), "0,1,2,3,4,6" if c.quick() else "0,1,2,3,4,6; length 4 at iterMax 4,5; length 5 at iterMax 5", c.pick(600, 6000), nsucc))
+                          "(default e<eps, override !(e>=eps)), plus seeded random scripts of length 4..14; real solvers "
+                          "NewtonRaphson/Broyden/Broyden2/LevenbergMarquardt/PowellDogLeg(NR,Broyden): %d seeded systems A z + b + c z^2 (N=2, singular "
+                          "Jacobians included, failures/NaN/inf injected at up to 3 evaluation indices), %d affine systems (one correction must be enough "
+                          "for Newton and for Broyden started from the exact jacobian), %d systems A q(z) with known roots (products of quadratics / "
+                          "rational), the N=1 cubic x^3-x admissible for x > -0.5 from 61 starts per solver (%d runs); %d single dog-leg corrections "
+                          "against an independent statement of the dog-leg; %d of all runs succeeded. non-trivial = more than 5 hook calls"
+                          % (c.pick(3, 4), "0,1,2,3,4,6" if c.quick() else "0,1,2,3,4,6; length 4 at iterMax 4,5; length 5 at iterMax 5", c.pick(600, 6000),
+                             sum(1 for x in cases if x.affine), kinds.get("Q", 0) + kinds.get("T", 0), kinds.get("K", 0), len(dcases), nsucc))
     c.trusted("hand-written Gallina model coq/C08Model.v (tied to /repo by differential execution of complete hook-call traces only)",
-              "driver props/C08/driver.cxx: logging mixin, mock child, residual family; for the real solvers the model is fed with the outcomes read off the observed trace (acceptor)",
+              "driver props/C08/driver.cxx: logging mixin, mock child, residual families; for the real solvers the model is fed with the outcomes read off the observed trace (acceptor)",
               "g++ -O1 -ffp-contract=off doubles = IEEE binary64 = Coq primitive floats (zeros updates compared bit for bit)",
-              "Python differ / parsers")
+              "Python differ / parsers, independent statements of the property (residual re-evaluation, known roots, dog-leg reference)")
     if mism:
         cs, m, o = mism[0]
         c.report("corr:" + cs.id, "model and real code disagree on %d/%d cases, first: %s model=%s code=%s" % (
             len(mism), nmodel, cs.id, None if m is None else (m[0], m[1], m[2], m[3]), (o[0], o[1], o[2], [k for (k, _p) in o[3]])),
             cs.json(), False)
-    res = c.coq(["C08Model.v", "C08Spec.v", "C08Proofs.v", "Properties_C08.v"], timeout=600)
-    if not res.ok:
-        c.coq_failures(res)
     c.assumptions.append("every Child hook is an arbitrary function of the run history (oracle indexed by the residual-evaluation count); "
                          "iter/iterMax modelled as nat (unsigned short wrap-around not modelled, iterMax <= 65535)")
+    c.assumptions.append("engine S theorems are over the reals (no rounding): the traced terms are the exact-arithmetic reading of the C++; "
+                         "fpclassify(n) != FP_ZERO of the Broyden updates is traced as `always update` (theorems assume the divisor non null)")
 
 
 guarded_main("C08", main)
